@@ -6,7 +6,10 @@ one-field class.  Values: both booleans, 0/1, a float, strings, None, an enum me
 / lists / frozensets / dicts of these.  With RUNTIME_TYPE_CHECK on, construction must succeed iff the reference
 `conforms`, otherwise raise InvalidTypes naming exactly that field; with it off, construction succeeds and yields the
 same field value and content_id.  Multi-field classes mix conforming and non-conforming fields (incl. an init=False
-default and origin): invalid_fields must be exactly the non-conforming fields.
+default and origin): invalid_fields must be exactly the non-conforming fields.  Switch histories (E2): every sequence of
+<= 2 (thorough 3) operations from a menu of 27 succeeding and failing library operations (constructions, replace,
+duplicate, round trips and failing loads in four formats, traversal, Tree, xpath, patterns, transformers) x the switch:
+the configuration must be what the user set and construction must still be checked iff the switch is on.
 """
 from __future__ import annotations
 
@@ -31,6 +34,7 @@ RULE = (
     "take their second argument from {int, None, N2, str}); values: a 27-value pool; every (annotation, value) pair is "
     "constructed with the switch on and off.  states = distinct annotations (one generated class each); transitions = "
     "constructions compared with the reference; non-trivial = annotations that accept at least one pool value and reject at least one. "
+    "Switch histories: all sequences of <= 2 (thorough 3) of 27 library operations x switch on/off, configuration and verdict probes after each. "
     "Pairs the statement leaves open (bool for float, bool/float against numeric literals) are not judged"
 )
 ASSUMPTIONS = [
@@ -272,6 +276,150 @@ def check_hierarchy(rec, mod, g):
         for c in (B, D, E):
             forget(c)
 
+SWSRC = '''
+@dataclass(frozen=True)
+class SW(ASTNode):
+    a: int = 0
+    kid: Optional[N1] = None
+    kids: tuple[N1, ...] = ()
+
+@dataclass(frozen=True)
+class SWR(ASTNode):
+    need: int
+    kid: Optional[SW] = None
+'''
+
+
+def _must_be_none(x):
+    if x is not None:
+        raise AssertionError("harness: expected a rejected pattern")
+
+
+def switch_ops(g):
+    """A menu of library operations - succeeding and failing ones - that may run between setting the switch and a
+    construction.  None of them is documented to touch the configuration."""
+    from pyoak.match.pattern import NodeMatcher
+    from pyoak.match.xpath import ASTXpath
+    from pyoak.tree import Tree
+    from pyoak.visitor import ASTTransformVisitor
+
+    SW, SWR, N1, ASTNode = g["SW"], g["SWR"], g["N1"], g["ASTNode"]
+
+    def tree():
+        return SWR(1, SW(2, N1(3), (N1(4), N1(5))))
+
+    def payload():
+        t = tree()
+        d = t.as_dict()
+        NODE_REGISTRY.clear()
+        return d
+
+    def drop(d, key):
+        d = dict(d)
+        d.pop(key)
+        return d
+
+    class Boomer(ASTTransformVisitor):
+        def visit_N1(self, node):
+            raise RuntimeError("boom")
+
+    class Bump(ASTTransformVisitor):
+        def visit_N1(self, node):
+            return node.replace(v=node.v + 1)
+
+    def bad_child(d):
+        d = dict(d)
+        d["kid"] = dict(d["kid"], kid={"__type": "NoSuchClass", "v": 1})
+        return d
+
+    return {
+        "construct-ok": lambda: tree(),
+        "construct-ill": lambda: SW(a="x"),
+        "construct-ill-child": lambda: SWR(1, kid=N1(1)),
+        "replace-ok": lambda: tree().replace(need=2),
+        "replace-ill": lambda: tree().replace(need="x"),
+        "duplicate": lambda: tree().duplicate(),
+        "roundtrip-dict": lambda: ASTNode.as_obj(payload()),
+        "roundtrip-json": lambda: ASTNode.from_json(tree().to_json()),
+        "roundtrip-msgpack": lambda: ASTNode.from_msgpck(tree().to_msgpck()),
+        "roundtrip-yaml": lambda: ASTNode.from_yaml(tree().to_yaml()),
+        "roundtrip-registered": lambda: (lambda t: ASTNode.as_obj(t.as_dict()))(tree()),
+        "load-missing-field": lambda: ASTNode.as_obj(drop(payload(), "need")),
+        "load-unknown-type": lambda: ASTNode.as_obj(dict(payload(), __type="NoSuchClass")),
+        "load-bad-child": lambda: ASTNode.as_obj(bad_child(payload())),
+        "load-wrong-value": lambda: ASTNode.as_obj(dict(payload(), need="x")),
+        "load-bad-json": lambda: ASTNode.from_json("{not json"),
+        "load-bad-msgpack": lambda: ASTNode.from_msgpck(b"\xc1\xc1"),
+        "load-bad-yaml": lambda: ASTNode.from_yaml("a: [1"),
+        "load-typed-missing": lambda: SWR.as_obj(drop(payload(), "need")),
+        "traverse": lambda: (list(tree().dfs()), list(tree().bfs()), list(tree().gather(N1))),
+        "tree-queries": lambda: (lambda t: [Tree(t).get_xpath(i.node) for i in t.dfs()])(tree()),
+        "xpath-ok": lambda: list(ASTXpath("//N1").findall(tree())),
+        "xpath-bad": lambda: ASTXpath("//["),
+        "pattern-ok": lambda: NodeMatcher.from_pattern('(SW @a="2" @kids=[(N1) *])')[0].match(tree().kid),
+        "pattern-bad": lambda: _must_be_none(NodeMatcher.from_pattern("(SW @")[0]),
+        "transform-ok": lambda: Bump().transform(tree()),
+        "transform-raises": lambda: Boomer().transform(tree()),
+    }
+
+
+def _switch_case(rec, g, ops, hist, on):
+    SW, N1 = g["SW"], g["N1"]
+    rec.count("states"); rec.count("transitions"); rec.count("traces"); rec.count("evaluations")
+    case = {"switch_history": list(hist), "switch": on}
+    NODE_REGISTRY.clear()
+    config.RUNTIME_TYPE_CHECK = on
+    before = {n: getattr(config, n) for n in dir(config) if n.isupper()}
+    try:
+        for name in hist:
+            try:
+                ops[name]()
+                rec.outcome(f"op:{name}:ok")
+            except Exception as e:  # noqa: BLE001
+                rec.outcome(f"op:{name}:{type(e).__name__}")
+            after = {n: getattr(config, n) for n in dir(config) if n.isupper()}
+            if after != before:
+                diff = {n: (before[n], after[n]) for n in before if before[n] != after.get(n)}
+                rec.violation("C13|switch|configuration-changed", case, f"after {name}: the library changed the configuration: {diff}")
+                break
+        NODE_REGISTRY.clear()
+        probes = [(dict(a="x"), ["a"]), (dict(a=1, kid=N1(1), kids=(N1(2),)), []), (dict(a=True), ["a"])]
+        for kw, bad in probes:
+            try:
+                SW(**kw)
+                got = []
+            except InvalidTypes as e:
+                got = sorted(f.name for f in e.invalid_fields)
+            except Exception as e:  # noqa: BLE001
+                got = [f"<{type(e).__name__}>"]
+            exp = bad if on else []
+            if got != exp:
+                rec.violation(f"C13|switch|{'not-checked' if on else 'checked-although-off'}", case,
+                              f"switch {'on' if on else 'off'}: constructing SW({', '.join(kw)}) gave invalid fields {got}, expected {exp}")
+                break
+    finally:
+        config.RUNTIME_TYPE_CHECK = False
+
+
+def check_switch_history(rec, mod, g, maxlen, k=0, of=1):
+    """The switch is read, never written, by the library: after any history of operations (failing ones included) the
+    configuration is what the user set and construction is still checked iff the switch is on."""
+    if "SW" not in g:
+        exec(compile(SWSRC, "<c13:SW>", "exec", dont_inherit=True), mod.__dict__)
+    ops = switch_ops(g)
+    SW, N1 = g["SW"], g["N1"]
+    names = list(ops)
+    idx = 0
+    for ln in range(0, maxlen + 1):
+        for hist in itertools.product(names, repeat=ln):
+            idx += 1
+            if idx % of != k:
+                continue
+            for on in (True, False):
+                _switch_case(rec, g, ops, hist, on)
+    rec.bound["switch_history_length"] = maxlen
+    rec.extra["switch_ops"] = names
+
 
 def plan(tier, seed):
     return [{"k": i, "of": NSHARDS, "tier": tier} for i in range(NSHARDS)]
@@ -287,13 +435,18 @@ def run_shard(cfg):
         check_multi(rec, mod, g)
     if cfg["k"] == 1 % cfg["of"]:
         check_hierarchy(rec, mod, g)
+    check_switch_history(rec, mod, g, 3 if cfg["tier"] == "thorough" else 2, cfg["k"], cfg["of"])
     for idx, t in enumerate(accepted_terms(cfg["tier"])):
         if idx % cfg["of"] != cfg["k"]:
             continue
         rec.rank = idx
         check_term(rec, mod, t, values, env)
-    rec.bound = {"annotation_depth": 3 if cfg["tier"] == "thorough" else 2, "values": len(values)}
+    rec.bound.update({"annotation_depth": 3 if cfg["tier"] == "thorough" else 2, "values": len(values)})
     return rec.result()
+
+
+def _replay_switch(rec, mod, g, case):
+    _switch_case(rec, g, switch_ops(g), tuple(case["switch_history"]), bool(case["switch"]))
 
 
 def replay(case, cfg):
@@ -301,7 +454,10 @@ def replay(case, cfg):
     mod = make_module()
     g = mod.__dict__
     env = {"N1": g["N1"], "N2": g["N2"], "E": g["E"]}
-    if case.get("hierarchy"):
+    if case.get("switch_history") is not None:
+        exec(compile(SWSRC, "<c13:SW>", "exec", dont_inherit=True), mod.__dict__)
+        _replay_switch(rec, mod, g, case)
+    elif case.get("hierarchy"):
         check_hierarchy(rec, mod, g)
     elif case.get("multi"):
         check_multi(rec, mod, g)
